@@ -150,6 +150,7 @@ def gen_compute_case(rng, maxpix=48, force=None):
     if dtype.startswith('uint') and rng.random() < 0.3:
         lo = min(x for x in k if x is not None)
         case['k'] = [x - lo for x in k]
+    case['reuse'] = rng.random() < 0.3
     case.update(force.get('override', {}))
     return case
 
